@@ -24,6 +24,9 @@ NomHdr == RawHdr(1, 4)
 
 G1 == { [fam |-> "G1", sig |-> RawHdr(ns, ds), hdr |-> RawHdr(nh, dh), payload |-> p]
           : ns \in 0..3, ds \in 0..24, nh \in 0..2, dh \in {0, 5, 16}, p \in {0, 3} }
+      \* more index entries than rpm itself allows in a header (65535): the reader takes them, so the offsets must hold
+      \cup { [fam |-> "G1", sig |-> RawHdr(65536, 8), hdr |-> NomHdr, payload |-> 3],
+              [fam |-> "G1", sig |-> NomSig, hdr |-> RawHdr(70000, 4), payload |-> 3] }
 
 \* ---- G2: raw entries against a 4-byte store
 Stores == { <<65, 0, 66, 0>>, <<65, 66, 67, 68>>, <<195, 40, 0, 0>>, <<0, 0, 0, 0>> }
